@@ -88,10 +88,28 @@ func glExpr(e ast.Expr) string {
 		if at, ok := x.Type.(*ast.ArrayType); ok && at.Len != nil && len(x.Elts) == 0 {
 			return fmt.Sprintf("(.call (.id \"#array\") [%s])", glExpr(at.Len))
 		}
+		// a slice/array of an anonymous struct type whose elements are written positionally, `[]struct{a A; b B}{{x, y}}`:
+		// the element literals get the field names of the struct type
+		var elemFields []string
+		if at, ok := x.Type.(*ast.ArrayType); ok {
+			if stt, ok := at.Elt.(*ast.StructType); ok {
+				for _, f := range stt.Fields.List {
+					for _, n := range f.Names {
+						elemFields = append(elemFields, n.Name)
+					}
+				}
+			}
+		}
 		elts := make([]string, len(x.Elts))
 		for i, el := range x.Elts {
 			if kv, ok := el.(*ast.KeyValueExpr); ok {
 				elts[i] = fmt.Sprintf("(%s, %s)", leanStr(exprStr(kv.Key)), glExpr(kv.Value))
+			} else if inner, ok := el.(*ast.CompositeLit); ok && inner.Type == nil && len(elemFields) > 0 && len(inner.Elts) == len(elemFields) && !hasKeys(inner) {
+				fs := make([]string, len(inner.Elts))
+				for j, ie := range inner.Elts {
+					fs[j] = fmt.Sprintf("(%s, %s)", leanStr(elemFields[j]), glExpr(ie))
+				}
+				elts[i] = fmt.Sprintf("(\"\", (.comp \"\" [%s]))", strings.Join(fs, ", "))
 			} else {
 				elts[i] = fmt.Sprintf("(\"\", %s)", glExpr(el))
 			}
@@ -105,6 +123,15 @@ func glExpr(e ast.Expr) string {
 		return fmt.Sprintf("(.call (.id \"#assert\") [%s, (.str %s)])", glExpr(x.X), leanStr(exprStr(x.Type)))
 	}
 	return fmt.Sprintf("(.other %s)", leanStr(exprStr(e)))
+}
+
+func hasKeys(c *ast.CompositeLit) bool {
+	for _, e := range c.Elts {
+		if _, ok := e.(*ast.KeyValueExpr); ok {
+			return true
+		}
+	}
+	return false
 }
 
 // glZero is the zero value of a declared type.
